@@ -162,7 +162,15 @@ def run_case(ctx, case):
         kw['submodels'] = list(case['selected'])
     if case.get('offset'):
         kw['offset'] = case['offset']
-    r = call(linker.solve_t, t, **kw)
+    from . import c05
+    from .common import h64
+    if 'caller_filter' not in case:
+        case['caller_filter'] = c05.CALLER_FILTERS[h64(['wf', case]) % len(c05.CALLER_FILTERS)]
+    c05.CALLER_FILTER[0] = case['caller_filter']
+    try:
+        r = call(linker.solve_t, t, **kw)
+    finally:
+        c05.CALLER_FILTER[0] = 'ignore'
     ctx.count('runs_compared')
     if case['selected'] is not None and kw['submodels'] != list(case['selected']):
         ctx.violation('argument-mutated', f'solve_t changed the caller\'s `submodels` list from {list(case["selected"])} to {kw["submodels"]}', case)
@@ -257,7 +265,7 @@ def run_shard(ctx):
             if rng.random() < 0.12 and subs[key]:
                 # a check variable that turns non-finite (and possibly heals): NaN / inf "movement" is never "less than tol"
                 j = rng.randrange(len(subs[key]))
-                subs[key][j][rng.randrange(2)] = rng.choice(['nan', 'pinf', 'ninf'])
+                subs[key][j][rng.randrange(2)] = rng.choice(['nan', 'pinf', 'ninf', 'warn'])    # 'warn': -inf out of a warning-raising NumPy operation
                 if rng.random() < 0.5 and j + 1 < len(subs[key]):
                     subs[key][j + 1] = ['zero', 'zero']
         tol = rng.choice([0.5, 0.5, 1e-10, 1e-4])
@@ -377,6 +385,8 @@ def single_model_twin(ctx):
     scripts = ['Y = C + G\nC = {c} * Y[0]', 'Y = 0.5 * Y[-1] + X\nZ = 0.9 * Z[0] + Y', 'x = {a} * y + 1\ny = {b} * x[0] + 2',
                'H = H[-1] + YD - C\nYD = Y - T\nT = {theta} * Y\nY = C + G\nC = {a1} * YD + {a2} * H[-1]',
                # variables named like members of the model object (a method, a property, a NumPy-style attribute)
+               # transient numerical warnings (a division by a not-yet-computed zero, a logarithm of zero) that heal on the next pass
+               'X = Z / Y\nY = W', 'L = log(K)\nK = 0.5 * K[0] + G\nM = L + 1',
                'size = 0.5 * size[-1] + copy\ncopy = 0.9 * copy[0] + X', 'T = C + values\nC = {c} * T[0]\nvalues = 0.25 * T[-1] + eval', 'solve = {a} * reindex + 1\nreindex = {b} * solve[0] + 2']
     for k, script in enumerate(scripts):
         if not ctx.mine(k):
@@ -391,17 +401,25 @@ def single_model_twin(ctx):
             opts = dict(tol=rng.choice([1e-10, 1e-6, 1e-3, 0.5]), max_iter=rng.choice([5, 50, 500]), min_iter=rng.choice([0, 0, 2]), failures='ignore')
             if rng.random() < 0.2:
                 opts['offset'] = -1
+            if 'log(' in script or '/ Y' in script:
+                opts['errors'] = rng.choice(['ignore', 'replace'])
+            from . import c05
+            caller_filter = rng.choice(c05.CALLER_FILTERS)
             a = Model(range(n), **data)
             b = Model(range(n), **data)
             linker = fsic.BaseLinker({'only': b})
-            case = dict(kind='single-twin', script=script, data=data, opts=opts)
+            case = dict(kind='single-twin', script=script, data=data, opts=opts, caller_filter=caller_filter)
             ctx.evaluation(case, nontrivial=True, sample=case)
-            if 'offset' in opts:
-                ra = call(a.solve, start=a.span[max(Model.LAGS, 1)], **opts)
-                rb = call(linker.solve, start=a.span[max(Model.LAGS, 1)], **opts)
-            else:
-                ra = call(a.solve, **opts)
-                rb = call(linker.solve, **opts)
+            c05.CALLER_FILTER[0] = caller_filter
+            try:
+                if 'offset' in opts:
+                    ra = call(a.solve, start=a.span[max(Model.LAGS, 1)], **opts)
+                    rb = call(linker.solve, start=a.span[max(Model.LAGS, 1)], **opts)
+                else:
+                    ra = call(a.solve, **opts)
+                    rb = call(linker.solve, **opts)
+            finally:
+                c05.CALLER_FILTER[0] = 'ignore'
             ctx.count('single_model_twins')
             diff = scripted.changed_cells(scripted.snapshot_model(a), scripted.snapshot_model(b))
             if ra != rb or diff:
